@@ -12,7 +12,8 @@ classes, decorators, template parameters, parameters, return type), symbol objec
 before/after every op, and against the first time the same module (same file) was registered in the session (reload = restore from
 the stored symbol snapshot). Pools contain a generic-function module (app.g) and a shapes module (app.h, 144 variants: generic base
 with a template typed member, concrete subclass chain, a function with 10..12 parameters) whose users read the inherited member /
-call the wide function.
+call the wide function. Memoised lists / dicts / sets handed out by the real Memoize.get record every in-place mutation (oracle
+`memo-mutated`). State inventory: translate/gen_session_state.py -> Generated/SessionState.lean (theorems inventory_*).
 """
 from __future__ import annotations
 
@@ -90,6 +91,61 @@ def make_app(proj: str, cache_dir: str, tpl: str | None = None) -> Any:
 		to_fullyname(ModulePaths): lambda: ModulePaths([]),
 	})
 	return App(defs)
+
+
+# memoised values are shared by everybody who asks again: a caller that mutates one changes what every later caller sees
+# (seeded C04-8: `Class.inherits` memoised, consumed by `inherits.pop(0)` in another file). The AST inventory cannot see a
+# mutation through a local alias, so the memo layer of the real code hands out lists / dicts / sets that RECORD every in-place
+# mutation (and then perform it: the run itself is unchanged).
+MEMO_LOG: list[dict[str, Any]] = []
+_LIST_MUT = ['append', 'extend', 'insert', 'pop', 'remove', 'clear', 'sort', 'reverse', '__setitem__', '__delitem__', '__iadd__', '__imul__']
+_DICT_MUT = ['__setitem__', '__delitem__', 'pop', 'popitem', 'clear', 'update', 'setdefault', '__ior__']
+_SET_MUT = ['add', 'discard', 'remove', 'pop', 'clear', 'update', 'difference_update', 'intersection_update', 'symmetric_difference_update',
+	'__ior__', '__iand__', '__isub__', '__ixor__']
+
+
+def _tracked(base: type, names: list[str]) -> type:
+	def make(name: str) -> Any:
+		orig = getattr(base, name)
+
+		def method(self: Any, *a: Any, **k: Any) -> Any:
+			import traceback
+			frames = [f for f in traceback.extract_stack(limit=8)[:-1] if os.sep + 'harness' + os.sep not in f.filename]
+			site = f'{os.path.relpath(frames[-1].filename, common.REPO)}:{frames[-1].lineno} {frames[-1].name}' if frames else '?'
+			MEMO_LOG.append({'key': str(getattr(self, '_memo_key', '?')), 'owner': getattr(self, '_memo_owner', '?'), 'method': name, 'site': site})
+			return orig(self, *a, **k)
+		return method
+	return type(f'Tracked{base.__name__.capitalize()}', (base,), {n: make(n) for n in names})
+
+
+TrackedList = _tracked(list, _LIST_MUT)
+TrackedDict = _tracked(dict, _DICT_MUT)
+TrackedSet = _tracked(set, _SET_MUT)
+_MEMO_TRACKED = False
+
+
+def install_memo_tracking() -> None:
+	"""Wrap `Memoize.get` (cache/memo2.py: node memos, node table memos) so that a memoised list / dict / set is stored as a
+	recording subclass instance. Values and identities are as before; only in-place mutation leaves a record."""
+	global _MEMO_TRACKED
+	if _MEMO_TRACKED:
+		return
+	from rogw.tranp.cache import memo2
+	orig = memo2.Memoize.get
+
+	def get(self: Any, key: Any, factory: Any) -> Any:
+		def tracked_factory() -> Any:
+			v = factory()
+			t = TrackedList if type(v) is list else TrackedDict if type(v) is dict else TrackedSet if type(v) is set else None
+			if t is None:
+				return v
+			w = t(v)
+			w._memo_key = key
+			w._memo_owner = str(getattr(factory, '__qualname__', '?')).split('.<locals>')[0]
+			return w
+		return orig(self, key, tracked_factory)
+	memo2.Memoize.get = get  # type: ignore[method-assign]
+	_MEMO_TRACKED = True
 
 
 class RealSession:
@@ -634,7 +690,7 @@ def run_session(ctx: Ctx, pool: list[dict[str, Any]], ops: list[list[Any]], proj
 	except Exception as e:  # noqa: BLE001 - the property says a process can be set up: reported by the search
 		for op in ops:
 			lines.append('\t'.join(['resubmit', *desc_tokens(op[1])]) if op[0] == 'resubmit' else f'{op[0]}\t{op[1]}')
-		return {'proj': proj, 'lines': lines, 'real': [f'app-error:{canon(e)}'] * len(ops), 'results': [], 'frame_bad': [], 'reload_bad': [], 'crash': canon(e)}
+		return {'proj': proj, 'lines': lines, 'real': [f'app-error:{canon(e)}'] * len(ops), 'results': [], 'frame_bad': [], 'reload_bad': [], 'memo_bad': [], 'crash': canon(e)}
 	real: list[str] = []
 	results: list[dict[str, Any]] = []
 	frame_bad: list[dict[str, Any]] = []
@@ -645,6 +701,8 @@ def run_session(ctx: Ctx, pool: list[dict[str, Any]], ops: list[list[Any]], proj
 	first_view: dict[str, Any] = {}
 	reload_bad: list[dict[str, Any]] = []
 	reload_seen: set[str] = set()
+	memo_bad: list[dict[str, Any]] = []
+	memo_mark = len(MEMO_LOG)
 	for i, op in enumerate(ops):
 		kind = op[0]
 		before = ses.loaded()
@@ -661,6 +719,8 @@ def run_session(ctx: Ctx, pool: list[dict[str, Any]], ops: list[list[Any]], proj
 			k, payload = getattr(ses, kind)(op[1])
 		real.append(ses.observe(result_str(k, payload)))
 		after = ses.loaded()
+		memo_bad.extend({'op': i, **e} for e in MEMO_LOG[memo_mark:])
+		memo_mark = len(MEMO_LOG)
 		# bookkeeping for the classification of search findings (facts about the real run only)
 		if kind in ('transpile', 'resubmit'):
 			target = MAIN if kind == 'resubmit' else op[1]
@@ -708,7 +768,7 @@ def run_session(ctx: Ctx, pool: list[dict[str, Any]], ops: list[list[Any]], proj
 						f"symbol table entries changed: {dict_diff(snap[m]['symbols'], now[m]['symbols'])}"
 					# transpiling m itself may legitimately resolve more of m's own nodes; classes of already resolved paths must not change
 					frame_bad.append({'op': i, 'module': m, 'what': what})
-	return {'proj': proj, 'lines': lines, 'real': real, 'results': results, 'frame_bad': frame_bad, 'reload_bad': reload_bad}
+	return {'proj': proj, 'lines': lines, 'real': real, 'results': results, 'frame_bad': frame_bad, 'reload_bad': reload_bad, 'memo_bad': memo_bad}
 
 
 # ---------------------------------------------------------------------------------------------
@@ -949,6 +1009,32 @@ def search_fresh(ctx: Ctx, cases: list[dict[str, Any]], all_seed_cases: int) -> 
 		compare_with_fresh(ctx, res, case, run, seeds, seen)
 	res.distinct = len(seen)
 	res.note = f'{len(cases)} sessions; the first {all_seed_cases} under all four hash seeds, the others under one rotating seed'
+	return res
+
+
+def search_memo(ctx: Ctx, cases: list[dict[str, Any]]) -> SearchResult:
+	res = SearchResult('no caller mutates a memoised list / dict / set in place (node memos, node table memos: recording containers in every session of this run)')
+	attributed = 0
+	for case in cases:
+		run = session_run(ctx, case)
+		res.cases += len(case['ops'])
+		attributed += len(run['memo_bad'])
+		seen: set[str] = set()
+		for b in run['memo_bad']:
+			k = f"{b['owner']}[{b['key']}].{b['method']}@{b['site']}"
+			if k not in seen:
+				seen.add(k)
+				res.findings.append(Finding(key='memo-mutated', what=f"op {b['op']}: the memoised value {b['owner']}[{b['key']}] was mutated in place ({b['method']}) by {b['site']}", replay={'case': case, **b}))
+	# the other searches (Interactive, Runner, depends) run sessions of their own in this process
+	rest: dict[str, dict[str, Any]] = {}
+	for e in MEMO_LOG:
+		rest.setdefault(f"{e['owner']}[{e['key']}].{e['method']}@{e['site']}", e)
+	if len(MEMO_LOG) > attributed and not res.findings:
+		for k, e in rest.items():
+			res.findings.append(Finding(key='memo-mutated', what=f"the memoised value {e['owner']}[{e['key']}] was mutated in place ({e['method']}) by {e['site']} (in a session of the Interactive / Runner / depends searches)", replay=dict(e)))
+	res.cases += 1
+	res.distinct = res.cases
+	res.note = f'{len(MEMO_LOG)} recorded mutations; recording is installed: {_MEMO_TRACKED}'
 	return res
 
 
@@ -1224,6 +1310,10 @@ STATEMENTS: dict[str, str] = {
 	'det_ref': 'in every reachable state transpile m = the reference result of m: render(m, tree, reference tables) for a module with reference table, the reference error (first failing import in load order / parser / ExpandModules) otherwise',
 	'det': 'DETERMINISM over all histories: two processes over the same files with the same current in-memory source answer transpile m identically (texts, render errors, load errors), whatever their histories of load / transpile / unload / resubmit were and whichever operations failed',
 	'inv_stableU / det_all': 'the same over ALL histories including unloads of library modules (cascade: afterwards only base modules are registered), for every module outside the library base; extra hypothesis BaseWorld: loading base modules while only base modules are registered restores their base tables',
+	'unload_resets / unload_noop': 'unload m of a registered module leaves nothing of m in the registry, the entrypoints (with the node tables and memos they own), the symbol table, the completed list and the memoised identities, after the whole cascade; unload of an unregistered module changes nothing',
+	'inventory_unload': 'GENERATED inventory (translate/gen_session_state.py: every attribute / class-level / module-level container, every attribute rebound outside __init__, every memoised key, every setattr / cache decorator / global, every write to an attribute of another object, in all sources of rogw/tranp; writers pinned; verdict per site audited in translate/c04_state_audited.json): every site audited "removed by unload" or "owned by a per-module entry" names a model component in which unload m leaves nothing of m; every site audited "keyed by content" or "per-call stack" names a component unload does not touch',
+	'inventory_backed': 'every component of the model state except the symbol files (file system) is backed by at least one site of the inventory',
+	'inventory_audit_consistent': 'sites audited constant are written by __init__ only (class-level tables by nobody, also not from other files); sites audited removed-by-unload are written by a method named unload / clear; every memoised key is in a node table owned by an entrypoint or in the self-hosted parser',
 	'unload_fuel': 'the cascade of unload never runs out of fuel: every fuel >= number of registered modules gives the same state',
 	'unload_load': 'unload m; load m gives m the tree of its source and exactly its reference table, as a load in any other stable state does',
 	'targets_sound / targets': 'every result the Runner produces is the reference result of its target; runs over permuted target lists without failing target produce the same (target, text) pairs',
@@ -1234,9 +1324,10 @@ PARTIAL: dict[str, Any] = {
 	'remaining_hypotheses': 'World: dotted module names; ExpandModules / renderer read the symbol table only inside the import closure (proved for the descriptor language); acyclic import graph; no file imports the in-memory module; the library modules and their imports are a pinned base that the history does not unload; no RecursionError',
 	'regression': 'the three former counterexamples (failed-load-retry, dep-unloaded, lib-closure-first) are examples proved equal to the fresh result by decide, and corpus cases that must pass on the real code',
 	'correspondence_only': 'that the real Modules/Entrypoints/SymbolDB/processors/transpile stacks behave like the model on generated pools (streams session, session-faulty); the concrete descriptor language (which keys ExpandModules inserts, when the renderer fails)',
-	'search_only': 'PYTHONHASHSEED independence (incl. the order of lambda capture lists), byte equality of real texts with a fresh process, purity of Jinja/i18n rendering, node classes / definition node facts / symbol object identity and attribute trees of untouched and of reloaded modules (memoised node properties, symbol snapshot restore order), unloading library modules',
+	'search_only': 'PYTHONHASHSEED independence (incl. the order of lambda capture lists), byte equality of real texts with a fresh process, purity of Jinja/i18n rendering, node classes / definition node facts / symbol object identity and attribute trees of untouched and of reloaded modules (memoised node properties, symbol snapshot restore order), in-place mutation of memoised containers (recording lists / dicts / sets handed out by Memoize.get in every session), unloading library modules',
 }
 ASSUMPTIONS: list[str] = [
+	'that the model state is ALL the state: no longer assumed wholesale — the inventory of state sites is generated from the sources on every run and a new or changed site (new attribute, new writer, new memoised key, new class-level container, new write into another object) breaks the tie until it is audited; what remains trusted: the hand-written verdict per site (translate/c04_state_audited.json, reasons in the generated table), state captured by closures, state inside lark / jinja2, and in-place mutation of a value through a local alias (not visible to the AST scan: recorded at run time by the memo oracle for memoised containers, by the symbol attribute dumps for symbols)',
 	'module names are non-empty and contain no "#" (GoodName; true of dotted Python paths)',
 	'ExpandModules reads the symbol table only at keys of the module, its direct imports and the pinned base (World.local_expand); the renderer depends only on the tables of an import-closed set containing the module and the base (RenderLocal) — both proved for the descriptor language of the driver (desc_local_expand, desc_render_local)',
 	'for det: acyclic import graph (rank), no file imports the in-memory module, the library base is not unloaded by the history (unloading library modules is covered by the streams and the search only), and no operation hit RecursionError (model fuel; the cascade of unload has fuel = number of registered modules, which suffices)',
@@ -1287,7 +1378,15 @@ def run(ctx: Ctx) -> int:
 
 
 def run_checked(ctx: Ctx, before: str | None) -> int:
+	translate_ok, translate_msg = True, ''
+	with ctx.timed('translate'):
+		try:
+			from translate import gen_session_state
+			ctx.generated_tables.extend(gen_session_state.generate())
+		except Exception as e:  # noqa: BLE001 - TranslateError: a state site that is not in the audited inventory
+			translate_ok, translate_msg = False, f'{type(e).__name__}: {e}'[:3000]
 	proof = common.prove(ctx, PROP, leanchecker=ctx.thorough)
+	install_memo_tracking()
 	try:
 		prelude(ctx)
 	except common.InfraError:
@@ -1296,7 +1395,7 @@ def run_checked(ctx: Ctx, before: str | None) -> int:
 		res = SearchResult('library modules load in a fresh process')
 		res.cases = 1
 		res.findings.append(Finding(key='library-load', what=f'loading the library modules in a fresh App raised {canon(e)}', replay={'exception': repr(e)}))
-		return common.finish(ctx, proof, [], [res], statements=STATEMENTS, partial=PARTIAL, assumptions=ASSUMPTIONS)
+		return common.finish(ctx, proof, [], [res], statements=STATEMENTS, partial=PARTIAL, assumptions=ASSUMPTIONS, translate_ok=translate_ok, translate_msg=translate_msg)
 	corpus = [norm_case(c) for c in corpus_cases()]
 	with ctx.timed('generate'):
 		valid = gen_cases(ctx, 'session', ctx.scale(5, 60), ctx.scale(12, 40), 0.15)
@@ -1319,9 +1418,11 @@ def run_checked(ctx: Ctx, before: str | None) -> int:
 			timed('prop_keys', search_prop_keys, ctx),
 			timed('audit', audit_hash_order),
 		]
+		# last: sees what every session of this run recorded
+		searches.insert(2, timed('memo', search_memo, ctx, [c for c in [*corpus, *valid, *faulty] if c['id'] in _RUNS]))
 	if before is not None and tree_fingerprint() != before:
 		raise common.InfraError(f'{common.REPO} changed while the check was running: session and fresh-process results are not comparable, run again')
-	return common.finish(ctx, proof, streams, searches, statements=STATEMENTS, partial=PARTIAL, assumptions=ASSUMPTIONS,
+	return common.finish(ctx, proof, streams, searches, statements=STATEMENTS, partial=PARTIAL, assumptions=ASSUMPTIONS, translate_ok=translate_ok, translate_msg=translate_msg,
 		trusted=['the fresh-process oracle forks before any tranp object exists; module import itself is assumed to create no session state'])
 
 
@@ -1334,15 +1435,16 @@ def replay(ctx: Ctx, path: str) -> int:
 	if rec.get('kind') == 'failing-input' and case and 'ops' in case:
 		case = norm_case(case)
 		case['id'] = 'replay'
+		install_memo_tracking()
 		run = session_run(ctx, case)
 		res = SearchResult('replay')
 		compare_with_fresh(ctx, res, case, run, [HASH_SEEDS[0]], set())
 		for f in res.findings:
 			print(f'REPLAY finding key={f.key}: {f.what}')
-		for b in [*run['frame_bad'], *run['reload_bad']]:
+		for b in [*run['frame_bad'], *run['reload_bad'], *run['memo_bad']]:
 			print(f'REPLAY frame finding: {b}')
 		ctx.cleanup()
-		return 1 if res.findings or run['frame_bad'] or run['reload_bad'] else 0
+		return 1 if res.findings or run['frame_bad'] or run['reload_bad'] or run['memo_bad'] else 0
 	ctx2 = Ctx(PROP, rec.get('tier', 'quick'), int(rec.get('seed', 0)))
 	return run_again(ctx2)
 
